@@ -85,8 +85,18 @@ def _close(got, want, mag, tol):
     return True, ""
 
 
-def _same_frame(out, spec, img, t, what):
-    """The physical frame (dimensions, origin) is kept; trailing axes and dtype as well."""
+def _assert_unchanged(img, snap, kind, t):
+    """The argument of an operation that returns a new image is left as it was: data *and*
+    metadata (``metadata()`` hands out the image's own ``dimensions`` / ``origin`` objects, so an
+    in-place edit of the returned dict entries would reach the input)."""
+    ok, why = gens.snapshot_equal(snap, gens.snapshot(img))
+    if not ok:
+        raise Violation(kind, f"input image modified ({why})", t)
+
+
+def _same_frame(out, spec, img, t, what, dtype=None):
+    """The physical frame (dimensions, origin) is kept; trailing axes and dtype as well
+    (``dtype``: the documented conversion dtype of Resize, if one was requested)."""
     if [float(d) for d in out.dimensions] != [float(d) for d in img.dimensions]:
         raise Violation(f"{what}:dimensions", f"{list(out.dimensions)} vs {list(img.dimensions)}", t)
     if not np.array_equal(np.asarray(out.origin, float), np.asarray(img.origin, float)):
@@ -94,8 +104,10 @@ def _same_frame(out, spec, img, t, what):
                         f"{np.asarray(img.origin).tolist()}", t)
     if out.img.shape[spec["dim"]:] != img.img.shape[spec["dim"]:]:
         raise Violation(f"{what}:trailing-shape", f"{out.img.shape} from {img.img.shape}", t)
-    if out.img.dtype != img.img.dtype:
-        raise Violation(f"{what}:dtype", f"{out.img.dtype} from {img.img.dtype}", t)
+    want_dtype = img.img.dtype if dtype is None else np.dtype(dtype)
+    if out.img.dtype != want_dtype:
+        raise Violation(f"{what}:dtype", f"{out.img.dtype} from {img.img.dtype}"
+                        + ("" if dtype is None else f" with conversion dtype {dtype}"), t)
     if out.space_dim != img.space_dim or out.series != img.series or out.scalar != img.scalar:
         raise Violation(f"{what}:kind", "space_dim / series / scalar flag changed", t)
 
@@ -104,8 +116,12 @@ def _same_frame(out, spec, img, t, what):
 # 1 + 2. Resize with inter_area
 # ---------------------------------------------------------------------------------------
 
-OBJ_APIS = ["shape", "ref", "key", "factor"]
-FUN_APIS = ["fun-shape", "fun-ref", "fun-factor"]
+OBJ_APIS = ["shape", "ref", "key", "factor", "key-factor", "key-general", "factor-x", "factor-y"]
+FUN_APIS = ["fun-shape", "fun-ref", "fun-factor", "fun-factor-y"]
+# option forms of Resize: positional target ("shape" / "ref" / "factor"), the same through the
+# keyed option dictionary ("key": '<key>resize shape', "key-factor": '<key>resize x' + '<key>resize
+# y', "key-general": the single '<key>resize' factor for both axes), one-sided factors (the other
+# factor keeps its default 1), and the functional wrapper darsia.resize.
 
 
 def gen_resize(apis, inputs):
@@ -113,17 +129,34 @@ def gen_resize(apis, inputs):
         @st.composite
         def strat(draw):
             spec = draw(_img_specs())
+            api = draw(st.sampled_from(apis))
             h, w = spec["shape"]
-            if draw(st.integers(0, 2)) > 0:
-                mode = "down"
-                target = [draw(st.integers(1, h)), draw(st.integers(1, w))]
-            else:
-                mode = "up"
+            up = draw(st.integers(0, 2)) == 0
+            if api == "key-general":
+                # one factor for both axes: integer up-sampling by q, or down-sampling by 1/q of
+                # an image whose extents are multiples of q
+                q = draw(st.sampled_from([1, 2, 2, 3, 3]))
+                if up:
+                    target = [h * q, w * q]
+                else:
+                    target = [draw(st.integers(1, 4)), draw(st.integers(1, 4))]
+                    vox = [d / n for d, n in zip(spec["dimensions"], spec["shape"])]
+                    spec["shape"] = [target[0] * q, target[1] * q]
+                    spec["dimensions"] = [n * v for n, v in zip(spec["shape"], vox)]
+            elif up:
                 target = [h * draw(st.integers(1, 3)), w * draw(st.integers(1, 3))]
-            return {"img": spec, "target": target, "mode": mode,
-                    "api": draw(st.sampled_from(apis)), "input": draw(st.sampled_from(inputs)),
+            else:
+                target = [draw(st.integers(1, h)), draw(st.integers(1, w))]
+            if api in ("factor-x",):
+                target[0] = spec["shape"][0]
+            if api in ("factor-y", "fun-factor-y"):
+                target[1] = spec["shape"][1]
+            return {"img": spec, "target": target, "mode": "up" if up else "down",
+                    "api": api, "input": draw(st.sampled_from(inputs)),
                     # data whose total vanishes (difference of two distributions, dipole) or is zero
-                    "data": draw(st.sampled_from(["general", "general", "general", "zero-sum", "all-zero"]))}
+                    "data": draw(st.sampled_from(["general", "general", "general", "zero-sum", "all-zero"])),
+                    # documented conversion dtype ("conversion dtype before resizing")
+                    "conv": draw(st.sampled_from([None, None, None, "float64", "float32"]))}
 
         return strat()
 
@@ -133,27 +166,51 @@ def gen_resize(apis, inputs):
 def _do_resize(case, img, conservative):
     spec, target, api = case["img"], case["target"], case["api"]
     h, w = spec["shape"]
+    conv = case.get("conv")
     cons = {"resize conservative": True} if conservative else {}
+    dt = {} if conv is None else {"dtype": getattr(np, conv)}
     ref_kw = dict(space_dim=2, dimensions=[1.0, 1.0])
     if api == "shape":
-        op = darsia.Resize(shape=tuple(target), interpolation="inter_area", **cons)
+        op = darsia.Resize(shape=tuple(target), interpolation="inter_area", **dt, **cons)
     elif api == "ref":
         ref = darsia.Image(np.zeros(tuple(target)), **ref_kw)
-        op = darsia.Resize(ref_image=ref, interpolation="inter_area", **cons)
-    elif api == "key":
-        kw = {"pre resize shape": tuple(target), "pre resize interpolation": "inter_area"}
+        op = darsia.Resize(ref_image=ref, interpolation="inter_area", **dt, **cons)
+    elif api in ("key", "key-factor", "key-general"):
+        kw = {"pre resize interpolation": "inter_area"}
+        if api == "key":
+            kw["pre resize shape"] = tuple(target)
+        elif api == "key-factor":
+            kw["pre resize x"] = target[1] / w
+            kw["pre resize y"] = target[0] / h
+        else:
+            kw["pre resize"] = target[0] / h  # == target[1] / w by construction
         if conservative:
             kw["pre resize conservative"] = True
+        if conv is not None:
+            kw["pre resize dtype"] = getattr(np, conv)
+        # un-prefixed entries belong to another option group of the same dictionary; the entries
+        # carrying this object's key decide (only options that are also given with the key)
+        kw["resize interpolation"] = "inter_nearest"
+        if api == "key":
+            kw["resize shape"] = (target[0] + 1, target[1] + 2)
+        if conservative:
+            kw["resize conservative"] = False
         op = darsia.Resize(key="pre ", **kw)
     elif api == "factor":
-        op = darsia.Resize(fx=target[1] / w, fy=target[0] / h, interpolation="inter_area", **cons)
+        op = darsia.Resize(fx=target[1] / w, fy=target[0] / h, interpolation="inter_area", **dt, **cons)
+    elif api == "factor-x":
+        op = darsia.Resize(fx=target[1] / w, interpolation="inter_area", **dt, **cons)
+    elif api == "factor-y":
+        op = darsia.Resize(fy=target[0] / h, interpolation="inter_area", **dt, **cons)
     elif api == "fun-shape":
-        return darsia.resize(img, shape=tuple(target), interpolation="inter_area")
+        return darsia.resize(img, shape=tuple(target), interpolation="inter_area", **dt)
     elif api == "fun-ref":
         ref = darsia.Image(np.zeros(tuple(target)), **ref_kw)
-        return darsia.resize(img, ref_image=ref, interpolation="inter_area")
+        return darsia.resize(img, ref_image=ref, interpolation="inter_area", **dt)
     elif api == "fun-factor":
-        return darsia.resize(img, fx=target[1] / w, fy=target[0] / h, interpolation="inter_area")
+        return darsia.resize(img, fx=target[1] / w, fy=target[0] / h, interpolation="inter_area", **dt)
+    elif api == "fun-factor-y":
+        return darsia.resize(img, fy=target[0] / h, interpolation="inter_area", **dt)
     return op(img)
 
 
@@ -187,18 +244,22 @@ def check_resize_conservative(case):
     spec = case["img"]
     img = _resize_input(case)
     before = img.img.copy()
-    t = _tags(spec, cls=_resize_class(case), api=case["api"])
+    snap = gens.snapshot(img)
+    conv = case.get("conv")
+    t = _tags(spec, cls=_resize_class(case), api=case["api"], conv=str(conv))
     arg = img if case["input"] == "image" else img.img
     out = _do_resize(case, arg, conservative=True)
     if case["input"] == "image":
         if not isinstance(out, darsia.Image):
             raise Violation("resize:return-type", f"{type(out).__name__} for an Image", t)
-        _same_frame(out, spec, img, t, "resize")
+        _same_frame(out, spec, img, t, "resize", dtype=conv)
         arr = out.img
     else:
         if isinstance(out, darsia.Image) or not isinstance(out, np.ndarray):
             raise Violation("resize:return-type", f"{type(out).__name__} for an array", t)
         arr = out
+        if arr.dtype != np.dtype(conv or spec["dtype"]):
+            raise Violation("resize:dtype", f"{arr.dtype} from {before.dtype} with conversion dtype {conv}", t)
     if list(arr.shape[:2]) != list(case["target"]) or arr.shape[2:] != before.shape[2:]:
         raise Violation("resize:shape", f"{arr.shape} for target {case['target']} from "
                         f"{before.shape}", t)
@@ -221,22 +282,23 @@ def check_resize_conservative(case):
         if not ok:
             raise Violation("resize-conservative:half-sum", f"{before.shape[:2]} -> {case['target']}: sum over the "
                             f"upper half {msg}", t)
-    if not np.array_equal(img.img, before):
-        raise Violation("resize:mutates", "input array modified", t)
+    _assert_unchanged(img, snap, "resize:mutates", t)
     return Outcome(_resize_nontrivial(case), case,
                    _labels(spec, _resize_class(case), f"api-{case['api']}", case["input"],
-                           f"data-{case.get('data', 'general')}"))
+                           f"data-{case.get('data', 'general')}", f"conv-{conv}"))
 
 
 def check_resize_area(case):
     spec = case["img"]
     img = gens.build_image(spec)
     before = img.img.copy()
-    t = _tags(spec, cls=_resize_class(case), api=case["api"])
+    snap = gens.snapshot(img)
+    conv = case.get("conv")
+    t = _tags(spec, cls=_resize_class(case), api=case["api"], conv=str(conv))
     out = _do_resize(case, img, conservative=False)
     if not isinstance(out, darsia.Image):
         raise Violation("resize:return-type", f"{type(out).__name__} for an Image", t)
-    _same_frame(out, spec, img, t, "resize")
+    _same_frame(out, spec, img, t, "resize", dtype=conv)
     if list(out.img.shape[:2]) != list(case["target"]):
         raise Violation("resize:shape", f"{out.img.shape} for target {case['target']}", t)
     want, mag = _ref_integral(before, 2, spec["dimensions"])
@@ -247,10 +309,9 @@ def check_resize_area(case):
     if not ok:
         raise Violation("resize-area:integral", f"{before.shape[:2]} -> {case['target']} "
                         f"({_resize_class(case)}): integral {msg}", t)
-    if not np.array_equal(img.img, before):
-        raise Violation("resize:mutates", "input array modified", t)
+    _assert_unchanged(img, snap, "resize:mutates", t)
     return Outcome(_resize_nontrivial(case), case,
-                   _labels(spec, _resize_class(case), f"api-{case['api']}"))
+                   _labels(spec, _resize_class(case), f"api-{case['api']}", f"conv-{conv}"))
 
 
 def gen_resize_reuse(tier):
@@ -335,6 +396,7 @@ def check_refine(case):
     spec, lev = case["img"], case["levels"]
     img = gens.build_image(spec)
     before = img.img.copy()
+    snap = gens.snapshot(img)
     dim = spec["dim"]
     t = _tags(spec, levels=lev)
     out = darsia.uniform_refinement(img, lev)
@@ -347,8 +409,7 @@ def check_refine(case):
     ok, msg = _close(_geom_integral(out), want, mag, tol)
     if not ok:
         raise Violation("refine:integral", f"level {lev} on {before.shape}: {msg}", t)
-    if not np.array_equal(img.img, before):
-        raise Violation("refine:mutates", "input array modified", t)
+    _assert_unchanged(img, snap, "refine:mutates", t)
     return Outcome(lev >= 1 and (dim >= 2 or _pclass(spec) != "scalar"), case,
                    _labels(spec, f"level+{lev}"))
 
@@ -392,6 +453,7 @@ def check_coarsen(case):
     dim = spec["dim"]
     img = _coarsen_input(case)
     before = img.img.copy()
+    snap = gens.snapshot(img)
     odd = any((n % 2**abs(lev)) != 0 for n in spec["shape"])
     t = _tags(spec, levels=lev, cls=case["cls"], divisible=not odd)
     try:
@@ -414,8 +476,7 @@ def check_coarsen(case):
         kind = "coarsen:integral" if not odd else "coarsen-odd-extent:constant"
         raise Violation(kind, f"level {lev} on shape {list(before.shape)} "
                         f"({case['cls']} data): integral {msg}", t)
-    if not np.array_equal(img.img, before):
-        raise Violation("coarsen:mutates", "input array modified", t)
+    _assert_unchanged(img, snap, "coarsen:mutates", t)
     nt = odd or dim >= 2 or _pclass(spec) != "scalar"
     return Outcome(nt, case, _labels(spec, f"level{lev}", case["cls"],
                                      "divisible" if not odd else "non-divisible"))
@@ -469,7 +530,7 @@ def gen_reduce(tier):
             axis = draw(st.integers(0, dim - 1))
         else:
             axis = draw(st.sampled_from(list("xyz"[:dim])))
-        return {"img": spec, "axis": axis, "via": draw(st.sampled_from(["object", "function"])),
+        return {"img": spec, "axis": axis, "via": draw(st.sampled_from(_VIAS)),
                 "slice": draw(st.integers(0, 10**6))}
 
     return strat()
@@ -481,10 +542,37 @@ def _matrix_axis(dim, axis):
     return AXES[dim]["xyz".index(axis)][0]
 
 
+# call forms: everything spelled out ("object" / "function"), or relying on the documented defaults
+# (AxisReduction: dim=3, mode="average"; reduce_axis: mode="average") with keyword arguments
+_VIAS = ["object", "function", "object-defaults", "function-defaults"]
+
+
+def _make_reduction(via, axis, dim, mode, **kw):
+    if via == "object-defaults":
+        args = {"axis": axis}
+        if dim != 3:
+            args["dim"] = dim
+        if mode != "average":
+            args["mode"] = mode
+        return darsia.AxisReduction(**args, **kw)
+    return darsia.AxisReduction(axis, dim=dim, mode=mode, **kw)
+
+
+def _defaults_used(via, dim, mode):
+    if via == "object-defaults":
+        return dim == 3 or mode == "average"
+    return via == "function-defaults" and mode == "average"
+
+
 def _reduce(case, img, mode, **kw):
     dim = case["img"]["dim"]
-    if case["via"] == "object":
-        return darsia.AxisReduction(case["axis"], dim=dim, mode=mode, **kw)(img)
+    via = case["via"]
+    if via in ("object", "object-defaults"):
+        return _make_reduction(via, case["axis"], dim, mode, **kw)(img)
+    if via == "function-defaults":
+        if mode == "average":
+            return darsia.reduce_axis(img, case["axis"], **kw)
+        return darsia.reduce_axis(image=img, axis=case["axis"], mode=mode, **kw)
     return darsia.reduce_axis(img, case["axis"], mode, **kw)
 
 
@@ -525,10 +613,37 @@ def _reduce_frame(out, img, spec, m, t):
                             f"{np.asarray(out.origin).tolist()})", t)
 
 
-def _reduce_labels(case):
+def _reduce_labels(case, mode=None):
     spec = case["img"]
     a = case["axis"]
-    return _labels(spec, f"axis-{a}" if isinstance(a, str) else f"index-{a}", case["via"])
+    extra = ("defaults-used",) if mode and _defaults_used(case["via"], spec["dim"], mode) else ()
+    return _labels(spec, f"axis-{a}" if isinstance(a, str) else f"index-{a}", case["via"], *extra)
+
+
+def _reduce_values(out, before, m, mode, dtype, axis, t, idx=None):
+    """sum == plain array sum, average == sum / number of voxels, slice == np.take."""
+    if mode == "slice":
+        want = np.take(before, idx, axis=m)
+        if out.img.shape != want.shape or not np.array_equal(out.img, want):
+            raise Violation(f"reduce-slice:matrix-axis-{m}", f"slice {idx} along axis {axis} "
+                            f"(matrix axis {m}) of shape {list(before.shape)}: result shape "
+                            f"{list(out.img.shape)}, np.take gives {list(want.shape)}"
+                            + ("" if out.img.shape != want.shape else " (values differ)"), t)
+        return
+    s = before.astype(float).sum(axis=m)
+    mag = np.abs(before.astype(float)).sum(axis=m)
+    n = before.shape[m]
+    tol = TOL_CV if dtype == "float32" else 4e-16
+    if mode == "sum":
+        ok, msg = _close(out.img, s, mag, 0.0 if dtype == "float64" else tol)
+        if not ok:
+            raise Violation("reduce-sum", f"axis {axis} (matrix axis {m}) of shape "
+                            f"{list(before.shape)}: {msg}", t)
+    else:
+        ok, msg = _close(out.img, s / n, mag / n, tol)
+        if not ok:
+            raise Violation("reduce-average", f"axis {axis} (matrix axis {m}, {n} voxels) "
+                            f"of shape {list(before.shape)}: {msg}", t)
 
 
 def _check_reduce_mode(case, mode):
@@ -537,26 +652,13 @@ def _check_reduce_mode(case, mode):
     m = _matrix_axis(dim, case["axis"])
     img = gens.build_image(spec)
     before = img.img.copy()
-    t = _tags(spec, axis=str(case["axis"]), mode=mode)
+    snap = gens.snapshot(img)
+    t = _tags(spec, axis=str(case["axis"]), mode=mode, via=case["via"])
     out = _reduce(case, img, mode)
     _reduce_frame(out, img, spec, m, t)
-    s = before.astype(float).sum(axis=m)
-    mag = np.abs(before.astype(float)).sum(axis=m)
-    n = before.shape[m]
-    tol = TOL_CV if spec["dtype"] == "float32" else 4e-16
-    if mode == "sum":
-        ok, msg = _close(out.img, s, mag, 0.0 if spec["dtype"] == "float64" else tol)
-        if not ok:
-            raise Violation("reduce-sum", f"axis {case['axis']} (matrix axis {m}) of shape "
-                            f"{list(before.shape)}: {msg}", t)
-    else:
-        ok, msg = _close(out.img, s / n, mag / n, tol)
-        if not ok:
-            raise Violation("reduce-average", f"axis {case['axis']} (matrix axis {m}, {n} voxels) "
-                            f"of shape {list(before.shape)}: {msg}", t)
-    if not np.array_equal(img.img, before):
-        raise Violation("reduce:mutates", "input array modified", t)
-    return Outcome(True, case, _reduce_labels(case))
+    _reduce_values(out, before, m, mode, spec["dtype"], case["axis"], t)
+    _assert_unchanged(img, snap, "reduce:mutates", t)
+    return Outcome(True, case, _reduce_labels(case, mode))
 
 
 def check_reduce_sum(case):
@@ -572,7 +674,8 @@ def check_reduce_integral(case):
     dim = spec["dim"]
     m = _matrix_axis(dim, case["axis"])
     img = gens.build_image(spec)
-    t = _tags(spec, axis=str(case["axis"]), mode="average")
+    snap = gens.snapshot(img)
+    t = _tags(spec, axis=str(case["axis"]), mode="average", via=case["via"])
     want, mag = _ref_integral(img.img, dim, spec["dimensions"])
     tol = TOL_CV if spec["dtype"] == "float32" else TOL64
     ok, msg = _close(_geom_integral(img), want, mag, tol)
@@ -592,7 +695,8 @@ def check_reduce_integral(case):
     if not ok:
         raise Violation("reduce-integral-sum", f"axis {case['axis']}: integral of the sum x voxel "
                         f"size {h!r} vs integral of the input: {msg}", t)
-    return Outcome(True, case, _reduce_labels(case), evals=2)
+    _assert_unchanged(img, snap, "reduce:mutates", t)
+    return Outcome(True, case, _reduce_labels(case, "average"), evals=2)
 
 
 def check_reduce_slice(case):
@@ -601,23 +705,66 @@ def check_reduce_slice(case):
     m = _matrix_axis(dim, case["axis"])
     img = gens.build_image(spec)
     before = img.img.copy()
+    snap = gens.snapshot(img)
     idx = case["slice"] % spec["shape"][m]
     t = _tags(spec, axis=str(case["axis"]), mode="slice", matrix_axis=m)
-    want = np.take(before, idx, axis=m)
     try:
         out = _reduce(case, img, "slice", slice_idx=idx)
     except IndexError as e:
         raise Violation(f"reduce-slice:matrix-axis-{m}", f"slice {idx} along axis {case['axis']} "
                         f"(matrix axis {m}) of shape {list(before.shape)}: IndexError({e})", t)
-    if out.img.shape != want.shape or not np.array_equal(out.img, want):
-        raise Violation(f"reduce-slice:matrix-axis-{m}", f"slice {idx} along axis {case['axis']} "
-                        f"(matrix axis {m}) of shape {list(before.shape)}: result shape "
-                        f"{list(out.img.shape)}, np.take gives {list(want.shape)}"
-                        + ("" if out.img.shape != want.shape else " (values differ)"), t)
+    _reduce_values(out, before, m, "slice", spec["dtype"], case["axis"], t, idx=idx)
     _reduce_frame(out, img, spec, m, t)
-    if not np.array_equal(img.img, before):
-        raise Violation("reduce:mutates", "input array modified", t)
-    return Outcome(True, case, _reduce_labels(case) + (f"matrix-axis-{m}",))
+    _assert_unchanged(img, snap, "reduce:mutates", t)
+    return Outcome(True, case, _reduce_labels(case, "slice") + (f"matrix-axis-{m}",))
+
+
+def gen_reduce_reuse(tier):
+    @st.composite
+    def strat(draw):
+        dim = draw(st.sampled_from([2, 3]))
+        if draw(st.booleans()):
+            axis = draw(st.integers(0, dim - 1))
+        else:
+            axis = draw(st.sampled_from(list("xyz"[:dim])))
+        n = draw(st.integers(2, 4))
+        imgs = [draw(_img_specs(dims=(dim,), max_extent={2: 7, 3: 4})) for _ in range(n)]
+        return {"dim": dim, "axis": axis, "imgs": imgs, "mode": draw(st.sampled_from(["sum", "average", "slice"])),
+                "via": draw(st.sampled_from(["object", "object-defaults"])), "slice": draw(st.integers(0, 10**6))}
+
+    return strat()
+
+
+def check_reduce_reuse(case):
+    """One AxisReduction object applied to several images of different shapes, voxel sizes, origins
+    and payload kinds: every result obeys the laws of a single call (sum == array sum, average ==
+    sum / number of voxels *of that image*, slice == np.take; retained dimensions / extent of that
+    image), and the object keeps its configuration."""
+    dim, mode = case["dim"], case["mode"]
+    m = _matrix_axis(dim, case["axis"])
+    kw = {}
+    if mode == "slice":
+        kw["slice_idx"] = case["slice"] % min(s["shape"][m] for s in case["imgs"])
+    shared = _make_reduction(case["via"], case["axis"], dim, mode, **kw)
+    config = (shared.index, shared.axis, shared.mode, dict(shared.kwargs))
+    for k, spec in enumerate(case["imgs"]):
+        img = gens.build_image(spec)
+        before = img.img.copy()
+        snap = gens.snapshot(img)
+        t = _tags(spec, axis=str(case["axis"]), mode=mode, via=case["via"], call=k)
+        out = shared(img)
+        _reduce_frame(out, img, spec, m, t)
+        _reduce_values(out, before, m, mode, spec["dtype"], case["axis"], t, idx=kw.get("slice_idx"))
+        _assert_unchanged(img, snap, "reduce:mutates", t)
+        if (shared.index, shared.axis, shared.mode, dict(shared.kwargs)) != config:
+            raise Violation("reduce-reuse:config", f"call {k} changed the reduction object: "
+                            f"{config} -> {(shared.index, shared.axis, shared.mode, shared.kwargs)}", t)
+    ext = {s["shape"][m] for s in case["imgs"]}
+    a = case["axis"]
+    return Outcome(len(ext) >= 2, case,
+                   (f"dim{dim}", f"mode-{mode}", f"axis-{a}" if isinstance(a, str) else f"index-{a}",
+                    case["via"], f"n{len(case['imgs'])}",
+                    "extents-differ" if len(ext) >= 2 else "extents-equal"), evals=len(case["imgs"]))
 
 
 # ---------------------------------------------------------------------------------------
@@ -637,6 +784,7 @@ def check_extrude(case):
     spec = case["img"]
     img = gens.build_image(spec)
     before = img.img.copy()
+    snap = gens.snapshot(img)
     num, height = case["num"], case["height"]
     t = _tags(spec, num=num)
     out = darsia.extrude_along_axis(img, height, num)
@@ -653,8 +801,7 @@ def check_extrude(case):
     ok, msg = _close(_geom_integral(out), want * height, mag * height, tol)
     if not ok:
         raise Violation("extrude:integral", f"height {height}, num {num}: {msg}", t)
-    if not np.array_equal(img.img, before):
-        raise Violation("extrude:mutates", "input array modified", t)
+    _assert_unchanged(img, snap, "extrude:mutates", t)
     return Outcome(True, case, _labels(spec, f"num{min(num, 3)}"))
 
 
@@ -726,6 +873,7 @@ def _sup_labels(case):
 def check_superpose_shared(case):
     imgs = _sup_build(case)
     befores = [im.img.copy() for im in imgs]
+    snaps = [gens.snapshot(im) for im in imgs]
     t = _sup_tags(case)
     out = darsia.superpose(imgs)
     want = np.zeros_like(befores[0])
@@ -741,15 +889,15 @@ def check_superpose_shared(case):
         raise Violation("superpose-shared:dimensions", f"{list(out.dimensions)}", t)
     if not np.array_equal(np.asarray(out.origin, float), np.asarray(imgs[0].origin, float)):
         raise Violation("superpose-shared:origin", f"{np.asarray(out.origin).tolist()}", t)
-    for im, b in zip(imgs, befores):
-        if not np.array_equal(im.img, b):
-            raise Violation("superpose:mutates", "input array modified", t)
+    for im, sn in zip(imgs, snaps):
+        _assert_unchanged(im, sn, "superpose:mutates", t)
     return Outcome(len(imgs) >= 2, case, _sup_labels(case))
 
 
 def check_superpose_integral(case):
     imgs = _sup_build(case)
     befores = [im.img.copy() for im in imgs]
+    snaps = [gens.snapshot(im) for im in imgs]
     t = _sup_tags(case)
     hr, hc = case["vox"]
     ar, ac = case["anchor"]
@@ -776,11 +924,111 @@ def check_superpose_integral(case):
         raise Violation("superpose:integral", f"{len(imgs)} images, offsets "
                         f"{[s['off'] for s in case['imgs']]}, shapes "
                         f"{[s['shape'] for s in case['imgs']]}: {msg}", t)
-    for im, b in zip(imgs, befores):
-        if not np.array_equal(im.img, b):
-            raise Violation("superpose:mutates", "input array modified", t)
+    # every image keeps its place: on the common lattice the canvas is the sum of the arrays, each
+    # added at its own voxel offset (all images share one voxel lattice, so the transfer is a pure
+    # translation by whole voxels; dyadic payloads add exactly)
+    placed = np.zeros((r1 - r0, c1 - c0) + befores[0].shape[2:], dtype=float)
+    cover = np.zeros((r1 - r0, c1 - c0), dtype=int)
+    for sp, b in zip(case["imgs"], befores):
+        i, j = sp["off"][0] - r0, sp["off"][1] - c0
+        placed[i:i + sp["shape"][0], j:j + sp["shape"][1]] += b.astype(float)
+        cover[i:i + sp["shape"][0], j:j + sp["shape"][1]] += 1
+    if not np.array_equal(out.img.astype(float), placed):
+        i = tuple(np.argwhere(out.img.astype(float) != placed)[0])
+        raise Violation("superpose:placement", f"{len(imgs)} images, offsets "
+                        f"{[sp['off'] for sp in case['imgs']]}, shapes "
+                        f"{[sp['shape'] for sp in case['imgs']]}: canvas voxel {list(i)} holds "
+                        f"{out.img[i]!r}, the images covering it add up to {placed[i]!r}", t)
+    for im, sn in zip(imgs, snaps):
+        _assert_unchanged(im, sn, "superpose:mutates", t)
     offs = {tuple(s["off"]) for s in case["imgs"]}
-    return Outcome(len(offs) >= 2, case, _sup_labels(case))
+    return Outcome(len(offs) >= 2, case, _sup_labels(case) + (
+        "overlapping" if cover.max() > 1 else "disjoint", "gaps" if cover.min() == 0 else "canvas-covered"))
+
+
+# ---------------------------------------------------------------------------------------
+# 10. conservative resizing as the preprocessing step of the earth mover's distance
+# ---------------------------------------------------------------------------------------
+
+TOL_EMD = 2e-5  # cv2.EMD works in float32; relative to mass x diameter (probe: 1.0e-7)
+
+
+def gen_emd(tier):
+    @st.composite
+    def strat(draw):
+        base = [draw(st.integers(1, 5)), draw(st.integers(1, 5))]  # coarse lattice (rows, cols)
+        blk = [draw(st.integers(1, max(1, base[0] - 1))), draw(st.integers(1, max(1, base[1] - 1)))]
+        pos = [[draw(st.integers(0, base[0] - blk[0])), draw(st.integers(0, base[1] - blk[1]))]
+               for _ in range(2)]
+        mode = draw(st.sampled_from(["up", "down", "down"]))
+        fac = [draw(st.integers(1, 3)), draw(st.integers(1, 3))]
+        return {"base": base, "blk": blk, "pos": pos, "mode": mode, "fac": fac,
+                "vox": [draw(st.sampled_from([1.0, 0.5, 0.25, 2.0, 0.3, 7.3])) for _ in range(2)],
+                "nt": draw(st.sampled_from([0, 0, 2])), "dtype": draw(st.sampled_from(["float64", "float32"])),
+                "api": draw(st.sampled_from(["shape", "key", "factor"])), "pseed": draw(st.integers(0, 2**16))}
+
+    return strat()
+
+
+def check_emd_conservative(case):
+    """EMD(preprocess=conservative Resize): two distributions that are translates of each other
+    (same positive block of data at two places of an otherwise empty image) keep equal sums under
+    conservative resizing (the compatibility check of EMD accepts them) and are still translates of
+    each other after integer up-sampling / down-sampling by whole coarse voxels, so the distance
+    is  conserved sum x physical shift x cell volume of the resized image  (the generalisation of
+    tests/unit/test_emd.py::test_emd_2d_resize)."""
+    (hb, wb), (bh, bw), fac = case["base"], case["blk"], case["fac"]
+    q = fac if case["mode"] == "down" else [1, 1]  # image voxels per coarse voxel
+    k = fac if case["mode"] == "up" else [1, 1]  # resized voxels per coarse voxel
+    shape = [hb * q[0], wb * q[1]]
+    target = [hb * k[0], wb * k[1]]
+    nt = case["nt"]
+    tr = [nt] if nt else []
+    data = (np.abs(gens.payload_array([bh * q[0], bw * q[1]] + tr, "float64", case["pseed"])) + 0.125)
+    dims = [shape[0] * case["vox"][0], shape[1] * case["vox"][1]]
+    t = {"mode": case["mode"], "dtype": case["dtype"], "series": bool(nt), "api": case["api"]}
+
+    def make(p):
+        arr = np.zeros(shape + tr, dtype=case["dtype"])
+        arr[p[0] * q[0]:(p[0] + bh) * q[0], p[1] * q[1]:(p[1] + bw) * q[1]] = data
+        kw = {"time": [0.0, 10.0]} if nt else {}
+        return darsia.Image(arr, space_dim=2, dimensions=list(dims), series=bool(nt), scalar=True, **kw)
+
+    if case["api"] == "shape":
+        pre = darsia.Resize(shape=tuple(target), interpolation="inter_area", **{"resize conservative": True})
+    elif case["api"] == "key":
+        pre = darsia.Resize(key="emd ", **{"emd resize shape": tuple(target), "emd resize interpolation": "inter_area",
+                                           "emd resize conservative": True})
+    else:
+        pre = darsia.Resize(fx=target[1] / shape[1], fy=target[0] / shape[0], interpolation="inter_area",
+                            **{"resize conservative": True})
+    a, b = make(case["pos"][0]), make(case["pos"][1])
+    snaps = [gens.snapshot(a), gens.snapshot(b)]
+    try:
+        d = darsia.EMD(pre)(a, b)
+    except AssertionError as e:
+        # the only assertions on this path are the compatibility checks of EMD (equal grids, equal sums)
+        raise Violation("emd-conservative:rejected", f"{shape} -> {target}: two translates with equal sums are "
+                        f"rejected after conservative resizing: AssertionError({e})", t)
+    mass = data.sum(axis=(0, 1))
+    shift = float(np.hypot((case["pos"][1][0] - case["pos"][0][0]) * q[0] * case["vox"][0],
+                           (case["pos"][1][1] - case["pos"][0][1]) * q[1] * case["vox"][1]))
+    cell = (dims[0] / target[0]) * (dims[1] / target[1])
+    diam = float(np.hypot(dims[0], dims[1]))
+    got = np.asarray(d, dtype=float)
+    want = np.asarray(mass * shift * cell, dtype=float)
+    if got.shape != want.shape:
+        raise Violation("emd-conservative:shape", f"result shape {got.shape} for {max(nt, 1)} time steps", t)
+    ok, msg = _close(got, want, mass * diam * cell, TOL_EMD)
+    if not ok:
+        raise Violation("emd-conservative:distance", f"{shape} -> {target} ({case['mode']}), shift {shift!r}, sum "
+                        f"{np.asarray(mass).tolist()}, resized cell volume {cell!r}: EMD {msg}", t)
+    for im, sn in zip((a, b), snaps):
+        _assert_unchanged(im, sn, "emd-conservative:mutates", t)
+    cls = "identity" if fac == [1, 1] else case["mode"]
+    return Outcome(cls != "identity" and shift > 0, case,
+                   (cls, case["dtype"], "series" if nt else "single", f"api-{case['api']}",
+                    "shifted" if shift > 0 else "coincident"))
 
 
 # ---------------------------------------------------------------------------------------
@@ -788,9 +1036,14 @@ def check_superpose_integral(case):
 _RULE = ("Hypothesis draws 2-D images (extents 1..12 incl. odd and single-voxel axes, float32 / "
          "float64, scalar / vector / series, unit / power-of-two / generic voxel sizes, default "
          "or user origin) and a configuration: resize target (both extents not larger, or "
-         "integer multiples) x API form; refinement level (1-3-D images); reduction axis by "
-         "index or Cartesian name (2-D and 3-D images) x object/function; extrusion height and "
-         "layer count; 1..4 images on one voxel lattice at integer voxel offsets; non-trivial = "
+         "integer multiples) x API form (shape / reference image / factors, positional or through "
+         "the keyed option dictionary incl. the single general factor, one-sided factors, the "
+         "functional wrapper) x optional conversion dtype; refinement level (1-3-D images); "
+         "reduction axis by index or Cartesian name (2-D and 3-D images) x object/function x "
+         "spelled-out or default arguments, one reduction object re-used on 2..4 images; extrusion "
+         "height and layer count; 1..4 images on one voxel lattice at integer voxel offsets; two "
+         "translates of one positive block as input of EMD with a conservative Resize as "
+         "preprocessing (integer up-/down-sampling); non-trivial = "
          "odd extent or non-integer down-sampling ratio or vector/series payload (resize), "
          "non-divisible extent or dim >= 2 (coarsening), >= 2 different offsets (superpose); "
          "distinct = the whole case")
@@ -808,7 +1061,15 @@ PROP = Prop(
         "float64 sums 1e-13, dyadic payloads exact",
         "coarsening of general data asserted only for extents divisible by 2^|levels|; constant "
         "data on every shape; no mixed up/down resizing, no non-integer up-sampling, superpose "
-        "only for equal power-of-two voxel sizes at integer voxel offsets",
+        "only for equal power-of-two voxel sizes at integer voxel offsets (there the canvas equals "
+        "the arrays added at their voxel offsets, exactly)",
+        "resize factors are always the exact ratio target/extent (cv2 takes the scale from the factor "
+        "itself, a rounded extent would not be covered exactly); a requested conversion dtype is the "
+        "dtype of the result; un-prefixed options never override the ones carrying the object's key",
+        "EMD of two translates = conserved sum x physical shift x cell volume of the resized image "
+        "(Kantorovich duality: the translation plan is optimal); cv2.EMD is float32: 2e-5 x sum x "
+        "diameter x cell volume (probe: 1.0e-7)",
+        "arguments are compared before / after through a deep snapshot of array and metadata()",
     ],
     subs=[
         Sub("resize_conservative_sum", check_resize_conservative,
@@ -826,10 +1087,14 @@ PROP = Prop(
         Sub("reduce_average_is_sum_over_n", check_reduce_average, gen=gen_reduce, n=_N, shards=_SH),
         Sub("reduce_integral", check_reduce_integral, gen=gen_reduce, n=_N, shards=_SH),
         Sub("reduce_slice_is_take", check_reduce_slice, gen=gen_reduce, n=_N, shards=_SH),
+        Sub("reduce_object_reuse", check_reduce_reuse, gen=gen_reduce_reuse,
+            n={"quick": 600, "thorough": 6000}, shards=_SH),
         Sub("extrude_integral", check_extrude, gen=gen_extrude, n=_N, shards=_SH),
         Sub("superpose_shared_grid", check_superpose_shared, gen=gen_superpose(True),
             n=_N, shards=_SH),
         Sub("superpose_integral", check_superpose_integral, gen=gen_superpose(False),
             n={"quick": 2400, "thorough": 16000}, shards={"quick": 2, "thorough": 16}),
+        Sub("emd_conservative_preprocess", check_emd_conservative, gen=gen_emd,
+            n={"quick": 600, "thorough": 6000}, shards=_SH),
     ],
 )
